@@ -416,6 +416,9 @@ static void cb_common(struct cbrec *rec, struct evbuffer *buffer, size_t orig, s
 	if (!(rec->flags & EVBUFFER_CB_ENABLED)) viol(NULL, "cb:disabled-invoked", "callback %d invoked while disabled (flags %#x)", rec->id, rec->flags);
 	if (mb->deferred && !W.in_loop && !(rec->flags & EVBUFFER_CB_NODEFER))
 		viol(NULL, "cb:deferred-invoked-synchronously", "callback %d of deferred buffer %d ran outside the event loop", rec->id, rec->buf);
+	/* CALIBRATED: "never deferred" callbacks are left out of the deferred run (they were already told synchronously) */
+	if (mb->deferred && W.in_loop && d == 0 && !W.step_has_reentry && (rec->flags & EVBUFFER_CB_NODEFER))
+		viol(NULL, "cb:nodefer-invoked-from-deferred-run", "callback %d of deferred buffer %d carries NODEFER but was invoked by the deferred run", rec->id, rec->buf);
 	for (k = 0; k <= d && k < 8; k++) if (mb->reent_dirty[k]) stale = 1;
 	if (have_counts ? (orig + added - deleted != len) : (newlen_reported != len)) {
 		if (stale) {
@@ -638,6 +641,7 @@ static int dies_in_child(int cls, void (*fn)(void *), void *arg)
 	if (p == 0) {
 		int fd = open("/dev/null", O_WRONLY);
 		if (fd >= 0) dup2(fd, 2);
+		mf_arm(0);          /* the probe is about the defect itself, not about an injected allocation failure */
 		fn(arg);
 		_exit(0);
 	}
@@ -1460,8 +1464,7 @@ static void case_random(vh_rng *r)
 	vh_stat_add("ops", g_opno);
 	if (W.mode == M_CALLBACKS) { if (W.nontrivial & 2) vh_distinct(W.h); }
 	else if (W.nontrivial == 3) vh_distinct(W.h);
-	if (vh_opt.verbose || 1)
-		vh_sample(2, "{\"mode\":\"%s\",\"buffers\":%d,\"ops\":%d,\"max_chains\":%ld,\"first_ops\":\"%s(%zu) %s(%zu) %s(%zu) %s(%zu)\"}", vh_opt.mode, nb, g_opno, W.max_chains,
+	vh_sample(2, "{\"mode\":\"%s\",\"buffers\":%d,\"ops\":%d,\"max_chains\":%ld,\"first_ops\":\"%s(%zu) %s(%zu) %s(%zu) %s(%zu)\"}", vh_opt.mode, nb, g_opno, W.max_chains,
 			opname[g_hist[0].kind], g_hist[0].n, opname[g_hist[1].kind], g_hist[1].n, opname[g_hist[2].kind], g_hist[2].n, opname[g_hist[3].kind], g_hist[3].n);
 }
 
@@ -1596,7 +1599,7 @@ int main(int argc, char **argv)
 	event_set_log_callback(logcb);
 	W.len_limit = vh_opt.thorough ? (1500u << 10) : (200u << 10);
 	if (W.mode != M_MODEL) W.len_limit = 200u << 10;
-	g_cap = 4 * W.len_limit + (5u << 20);
+	g_cap = 4 * W.len_limit + (8u << 20);
 	g_tmp = malloc(g_cap); g_out = malloc(g_cap);
 	for (i = 0; i < MAXB; i++) { mv_init(&W.b[i].m); mv_init(&W.snap[i]); }
 	if (W.exh && vh_opt.verbose && vh_opt.only < 0) printf("EXH_TOTAL %ld\n", exh_total());
